@@ -3,6 +3,23 @@
 import json, os
 HERE = os.path.dirname(os.path.dirname(os.path.abspath(__file__)))
 CLAIMED = {
+ 'C01': dict(
+   text="Coq theorems over a layout model of the LAMMPS writer (model/PairTables.v; row formula and dr regenerated from the source): one block per potential in order, headed by its two labels; header N = nr-1 = number of rows, rows numbered 1..N; "
+        "r_n = n*dr for every nr >= 3 (first row dr, last row cutoff, no r=0 row); in every row the energy and force cells evaluate the same potential at the same r_n; the force cell is Potential.force = -gradient (analytic derivative, else the secant slope of C07). "
+        "Tie: the model's token stream is rendered with the values recording callables returned and compared byte for byte with the file written by LAMMPS_PairTabulation.write / writePotentials; potable route compared at printed precision.",
+   note="Trusted: Coq kernel (vm_compute for evaluation); translator printing + exact-body assertions; harness renderer (Python % formatting); exact rationals for grid positions (float rounding of r not modelled, 1.5e-8 print tolerance).",
+   technique="Coq proof over a layout model with translated arithmetic + byte-exact vm_compute correspondence", ref="DESIGN.md section 4 C01"),
+ 'C02': dict(
+   text="Coq theorems over the DL_POLY TABLE layout model: header delpot = cutoff/(ngrid-4), cutpot, ngrid; per potential the 8+8 label line, exactly ngrid energies then ngrid force values in records of four; accumulated r_k = k*delpot (induction); "
+        "force value = r * Potential.force(r) for the same callable; a row count not divisible by four is rejected before anything is written. Tie: byte-exact correspondence as C01 (API, writePotentials('DL_POLY'), potable DL_POLY/DLPOLY; rejected counts must raise and write nothing).",
+   note="As C01. ngrid = 4 (division by zero in delpot) is outside the domain.",
+   technique="Coq proof over a layout model with translated arithmetic + byte-exact vm_compute correspondence", ref="DESIGN.md section 4 C02"),
+ 'C03': dict(
+   text="Coq theorems over the setfl layout model (model/EamTables.v) and the builder model (model/EamBuilder.v): each element named once ([EAM-Embed] order then zero-filled species, NoDup proved), per element Nrho values F(i*drho) and Nr values rho(i*dr), "
+        "pair blocks for (i, j<=i) in header order holding r*phi of the potential declared in either species order (find_pair symmetric; last declaration), zero when undeclared; header grid = tabulation grid; metadata precedence [Species] > built-in > default. "
+        "Tie: byte-exact correspondence with writeSetFL / SetFL_EAMTabulation (recording callables) and potable setfl / lammps_eam_alloy; builder order vs the built tabulation.",
+   note="Trusted: Coq kernel; translator printing + exact-body assertions of the builder glue; harness renderer; species ids are ranks of labels. No axioms.",
+   technique="Coq proof over layout/builder models + byte-exact vm_compute correspondence", ref="DESIGN.md section 4 C03"),
  'C06': dict(
    text="Coq theorems `<form>_call = spec_<form>` for all 15 built-in forms (polynomial for every order by induction on the coefficient list; Tang-Toennies as 'exact for the ideal constants' + 'every literal within 1e-13 of its ideal'), "
         "where <form>_call is regenerated from potentialfunctions.py on every run by the translator (which refuses a signature that differs from the documented parameter order) and spec_<form> is the documented closed form. "
